@@ -394,3 +394,12 @@ def check(run):
     r01b(run)
     r01c(run)
     r01d(run)
+    # a recorded error must reach the context its owner flushes, otherwise the raw value is returned (shared with C10)
+    from . import c10
+    run.rules_run.append("R10e")
+    c10.r10e(run, c04.in_scope_functions(run), rule="R10e")
+    c10.r10b(run, c04.in_scope_functions(run) + list(run.repo.module("utype.parser.options").functions.values()))
+    # a declaration resolved late must keep its constraints (shared with C17)
+    from . import c17
+    run.rules_run.append("R17c")
+    c17.r17c(run)
